@@ -42,7 +42,7 @@ def evaluator_poly(prog, cls, scalar, name, coords, extra_sig=None, hook=None, e
     if freeze:
         E.freeze = dict(freeze)
     outs = E.run(fn, arg_names=list(coords) + ['cb%d' % i for i in range(len(extra_sig or []))])
-    for nm, loc_ in E.trace.static_locals:
+    for nm, loc_ in E.trace.mutable_statics:
         STATE_FINDINGS.append(('%s::%s|%s' % (cat.short(cls), name, nm), loc_ or fn.where,
                                '%s::%s keeps `%s` in function-local static storage: after the first call its value no longer follows the current parameters' % (cat.short(cls), name, nm)))
     if len(outs) != 1 or outs[0].kind != 'ret' or outs[0].ret is None:
